@@ -3,6 +3,8 @@ package govc
 // Top level: verify one function against its contract.
 
 import (
+	"sort"
+	"regexp"
 	"fmt"
 	"go/types"
 	"math/big"
@@ -242,6 +244,11 @@ func (fr *Frame) specEnv(n *vnode, heap map[string]*Term) *SpecEnv {
 		if f.extraNames != nil {
 			if v, ok := f.extraNames[s]; ok {
 				return &SV{T: v.T, Ty: v.Ty}
+			}
+		}
+		if f == fr {
+			if a, ok := fr.x.eng.alias[s]; ok {
+				s = a
 			}
 		}
 		if s == "_i" && f == fr {
@@ -765,4 +772,100 @@ func (fr *Frame) freeVarSV(p *ssa.FreeVar, v *Val, heap map[string]*Term) *SV {
 		}
 	}
 	return &SV{T: v.T, Ty: p.Type()}
+}
+
+
+// ---------- rename recovery ----------
+
+var unknownNameRe = regexp.MustCompile(`unknown name \\?"([A-Za-z_][A-Za-z0-9_]*)\\?"`)
+
+// RenameCandidates: when generation failed because a loop clause names a local variable that no
+// longer exists, the names of the function's current variables that the contract does not mention.
+// Only names that occur in loop clauses and nowhere else in the contract qualify: a loop invariant is
+// an auxiliary of the proof (any inductive one will do), whereas requires / ensures / assert at
+// clauses are claims whose meaning must not depend on a guess.
+func (e *Engine) RenameCandidates(key string, errText string) (missing string, cands []string) {
+	m := unknownNameRe.FindStringSubmatch(errText)
+	if m == nil {
+		return "", nil
+	}
+	missing = m[1]
+	con := e.Contracts[key]
+	fnKey := key
+	if i := variantSep(key); i >= 0 {
+		fnKey = key[:i]
+	}
+	fn := e.funcByString(fnKey)
+	if con == nil || fn == nil || missing == "_i" {
+		return missing, nil
+	}
+	word := func(text, w string) bool {
+		return regexp.MustCompile(`(^|[^A-Za-z0-9_.])`+regexp.QuoteMeta(w)+`($|[^A-Za-z0-9_])`).MatchString(text)
+	}
+	var claims, loops []string
+	for _, cs := range [][]*Clause{con.Requires, con.Assumes, con.Ensures, con.Defines, con.Panics, con.Modifies, con.RegionAssumes} {
+		for _, c := range cs {
+			claims = append(claims, c.Text)
+		}
+	}
+	for _, a := range con.Asserts {
+		claims = append(claims, a.C.Text)
+	}
+	for _, sp := range con.Splits {
+		claims = append(claims, sp.Text)
+	}
+	for _, l := range con.Loops {
+		for _, c := range l.Invariants {
+			loops = append(loops, c.Text)
+		}
+		loops = append(loops, l.Modifies...)
+	}
+	for _, t := range claims {
+		if word(t, missing) {
+			return missing, nil
+		}
+	}
+	inLoops := false
+	for _, t := range loops {
+		if word(t, missing) {
+			inLoops = true
+		}
+	}
+	if !inLoops {
+		return missing, nil
+	}
+	seen := map[string]bool{}
+	addName := func(n string) {
+		if n == "" || seen[n] || n == "_" {
+			return
+		}
+		seen[n] = true
+		for _, t := range append(append([]string{}, claims...), loops...) {
+			if word(t, n) {
+				return
+			}
+		}
+		cands = append(cands, n)
+	}
+	for _, b := range fn.Blocks {
+		for _, in := range b.Instrs {
+			switch d := in.(type) {
+			case *ssa.DebugRef:
+				if obj := d.Object(); obj != nil {
+					if _, isVar := obj.(*types.Var); isVar {
+						addName(obj.Name())
+					}
+				}
+			case *ssa.Phi:
+				addName(d.Comment)
+			case *ssa.Alloc:
+				addName(d.Comment)
+			}
+		}
+	}
+	sort.Strings(cands)
+	if len(cands) > 6 {
+		cands = cands[:6]
+	}
+	return missing, cands
 }
